@@ -8,7 +8,7 @@ use serde_json::{json, Value};
 use crate::{exec_oracle::*, pipe, report::*, rustc_oracle::RCase, spec::*, synx, util};
 
 pub const EXEC_ADDRS: &[u64] = &[0x0001_0000, 0x1000_2340, 0x2000_0010, 0x3FFF_FFF0, 0x7000_1238];
-const TEXT_ONLY_ADDRS: &[u64] = &[0x123, 0, 0x7FFF_FFFF_FFFF_FFFF, 1, 0x7FFF_FFFF, 0x8000_0000, 0xFFFF_FFFF, 0x1_0000_0000];
+const TEXT_ONLY_ADDRS: &[u64] = &[0x123, 0, 0x7FFF_FFFF_FFFF_FFFF, 1, 0x7FFF_FFFF, 0x8000_0000, 0xFFFF_FFFF, 0x1_0000_0000, 0x8000_0000_0000_0000, 0xFFFF_FFFF_8000_1000];
 pub const RET_SENTINEL: u64 = 0x8877_6655_4433_2201;
 
 #[derive(Clone, Debug, PartialEq)]
@@ -408,6 +408,12 @@ pub fn run(tier: &str, only: Option<&Value>) -> i32 {
                 // an address that needs more than 32 bits cannot be called at pointer width 4
                 (pipe::Verdict::Err(_), None) if ps == 4 && c.funcs.iter().any(|f| f.addr >> 32 != 0) => {
                     rep.count("rejected_address_beyond_pointer_width", 1);
+                    None
+                }
+                // the upper half of the 64-bit range is not representable in the language's integers: it may be refused
+                // (at parse time or later); if it is accepted, the wrapper must still call exactly that address
+                (pipe::Verdict::Err(_) | pipe::Verdict::ParseErr(..), None) if c.funcs.iter().any(|f| f.addr >> 63 != 0) => {
+                    rep.count("rejected_address_beyond_isize", 1);
                     None
                 }
                 (pipe::Verdict::Ok(b), None) => {
